@@ -78,6 +78,8 @@ def resolve_table(ctx: Ctx, I: Interp) -> None:
                 cmpa = (atom, val)
             elif isinstance(atom, tuple) and atom[0] in ("isinstance", "kind", "kindgroup") :
                 continue
+            elif isinstance(atom, tuple) and atom[0] in ("count", "len-cmp", "nonempty") and atom[1] == getattr(l.run.__dict__["deps"], "uid", None):
+                continue      # a test of the input list's length before the loop (fast path for empty input)
             else:
                 other.append((atom, val))
         if other:
@@ -151,9 +153,26 @@ def resolve_table(ctx: Ctx, I: Interp) -> None:
             src = v.items[0].value      # [*map.values()]
         ok = isinstance(src, SOpaque) and (src.__dict__.get("iter_descr") or (None,))[0] == "values" \
             and isinstance(src.__dict__["iter_descr"][1], SDict)
+        deps_in = l.run.__dict__["deps"]
+        if not ok and isinstance(v, (SList, list)) and not (v.items if isinstance(v, SList) else v) and (not isinstance(v, SList) or v.mode == "concrete") \
+                and _empty_on_path(l.atoms, getattr(deps_in, "uid", None)):
+            ctx.ok("C10.result", "an empty input list resolves to an empty list")
+            continue
         ctx.check(ok, "C10.result", "result is list(<name->dependency dict>.values()) (insertion order, no re-sorting)", RES,
                   f"return {short(v)}", f"the resolved list is {short(v)}, not the insertion-ordered values of the name map: "
                   f"names are no longer ordered by first occurrence", witness="resolution of [b-1.0, a-1.0] must keep b first")
+
+
+def _empty_on_path(atoms: Any, uid: Any) -> bool:
+    cnt = [str(lab) for a, lab in atoms if isinstance(a, tuple) and a[0] == "count" and a[1] == uid]
+    if cnt and all(c == "n=0" for c in cnt):
+        return True
+    for a, lab in atoms:
+        if isinstance(a, tuple) and a[0] == "nonempty" and a[1] == uid and lab is False:
+            return True
+        if isinstance(a, tuple) and a[0] == "len-cmp" and a[1] == uid and (a[2], a[3]) == ("==", 0) and lab is True:
+            return True
+    return False
 
 
 def _at_most_one(atoms: Any, v: Any) -> bool:
@@ -161,6 +180,8 @@ def _at_most_one(atoms: Any, v: Any) -> bool:
     uid = getattr(v, "uid", None)
     if uid is None:
         return False
+    if any(isinstance(a[0], tuple) and a[0][0] == "nonempty" and a[0][1] == uid and a[1] is False for a in atoms):
+        return True     # `not deps`: the collection is empty
     groups = [(a[0][2], a[1]) for a in atoms if isinstance(a[0], tuple) and a[0][0] == "count" and a[0][1] == uid]
     if not groups:
         return False
@@ -194,8 +215,18 @@ def collection_table(ctx: Ctx, I: Interp) -> None:
         return ({fn.args.args[0].arg: s, "dedup": SBool(("param", "dedup"))}, s)
 
     cfg = Config()
-    cfg.stop_at_loop = ("TagList.get_dependencies", 0)
     cfg.opaque = {"Tag.get_dependencies", "_resolve_dependencies", "TagList.get_dependencies"}
+    # the loop over the children, wherever it lives (in the method itself or in a helper / generator it consumes)
+    key = None
+    cfg0 = Config()
+    cfg0.opaque = set(cfg.opaque)
+    cfg0.loop_effects = False
+    for l0 in I.run_function(CORE, "TagList.get_dependencies", mk, cfg0):
+        for rec0 in l0.run.loops:
+            if rec0.iter_value is l0.run.__dict__["self_obj"] and key is None:
+                key = rec0.__dict__.get("loop_key")
+    ctx.require(key is not None, "get_dependencies: no loop over the children")
+    cfg.stop_at_loop = key
     seen_kinds = set()
     for l in I.run_function(CORE, "TagList.get_dependencies", mk, cfg):
         rec = getattr(l.run, "stop_loop_record", None)
@@ -363,11 +394,17 @@ def init_validation(ctx: Ctx, I: Interp) -> None:
             idx_store = order.index(st)
             before = [e for e in vcalls if order.index(e) < idx_store]
             kind = "|".join(sorted(arg.kinds))
-            good_keys = bool(before) and _const_list(before[0].value[1]) == keys
+            def _req(e: Any) -> Any:
+                """the required-keys argument of a _validate_dicts call, positional or by keyword"""
+                if len(e.value) > 1:
+                    return e.value[1]
+                kw_ = (e.extra or {}).get("kwargs") or {}
+                return kw_.get("req_attr", next(iter(kw_.values()), None)) if kw_ else None
+            good_keys = bool(before) and _const_list(_req(before[0])) == keys
             ctx.check(bool(before) and good_keys, "C10.valid", f"{fld} ({kind}) is validated with required keys {keys} before it is stored", where,
-                      f"{fld} given as {kind}: validation calls {[ (short(e.value[0]), _const_list(e.value[1])) for e in vcalls]}",
+                      f"{fld} given as {kind}: validation calls {[ (short(e.value[0]), _const_list(_req(e))) for e in vcalls]}",
                       f"`{fld}` given as {kind} is stored without being validated for {keys} first"
-                      f"{' (validated keys: ' + str(_const_list(vcalls[0].value[1])) + ')' if vcalls else ''}",
+                      f"{' (validated keys: ' + str(_const_list(_req(vcalls[0]))) + ')' if vcalls else ''}",
                       witness={"script": "HTMLDependency('a','1', script={'href': 'x.js'})", "stylesheet": "HTMLDependency('a','1', stylesheet={'src': 'x.css'})",
                                "meta": "HTMLDependency('a','1', meta={'name': 'x'})"}[fld])
             # normalisation: None -> [], dict -> [dict], list -> itself
@@ -407,7 +444,7 @@ def _validate_tables(ctx: Ctx, I: Interp) -> None:
     prog = ctx.prog
     fn = prog.function(CORE, "HTMLDependency._validate_dict")
     where = f"{CORE}:HTMLDependency._validate_dict"
-    ps = [a.arg for a in fn.args.args]
+    ps = [a.arg for a in fn.args.args + fn.args.kwonlyargs]
     ctx.require(len(ps) == 3, "_validate_dict signature changed")
     for req in (["src"], ["name", "content"]):
         def mk(run: Any, req: List[str] = req):
@@ -442,7 +479,7 @@ def _validate_tables(ctx: Ctx, I: Interp) -> None:
     # _validate_dicts applies _validate_dict to every element with the same key list
     fn2 = prog.function(CORE, "HTMLDependency._validate_dicts")
     w2 = f"{CORE}:HTMLDependency._validate_dicts"
-    ps2 = [a.arg for a in fn2.args.args]
+    ps2 = [a.arg for a in fn2.args.args + fn2.args.kwonlyargs]
     cfg = Config()
     cfg.opaque = {"HTMLDependency._validate_dict"}
     cfg.stop_at_loop = ("HTMLDependency._validate_dicts", 0)
@@ -463,7 +500,12 @@ def _validate_tables(ctx: Ctx, I: Interp) -> None:
         ld, ra = l.run.__dict__["o"]
         el = rec.__dict__.get("element")
         calls = [e for e in l.effects if e.kind == "call" and getattr(e.target, "qual", "") == "HTMLDependency._validate_dict"]
-        ok = rec.iter_value is ld and len(calls) == 1 and calls[0].value and calls[0].value[0] is el and calls[0].value[1] is ra
+        def _second(e: Any) -> Any:
+            if len(e.value) > 1:
+                return e.value[1]
+            kw_ = (e.extra or {}).get("kwargs") or {}
+            return next(iter(kw_.values()), None)
+        ok = rec.iter_value is ld and len(calls) == 1 and calls[0].value and calls[0].value[0] is el and _second(calls[0]) is ra
         free = [a for a in l.atoms if isinstance(a[0], tuple) and a[0][0] not in ("loop",)]
         ctx.check(ok and not free, "C10.valid", "_validate_dicts validates every item with the given key list", w2,
                   f"{[repr(e)[:70] for e in calls]} {'when ' + str(free[0][0][0]) if free else ''}", "not every item of the list is validated with the required keys")
